@@ -220,7 +220,9 @@ def build_table(spec):
     S = build_correlation(spec['corr'])
     d = S.shape[0]
     rs = np.random.RandomState(spec['seed'])
-    Z = rs.multivariate_normal(np.zeros(d), S, size=spec['n'], method='cholesky') if _pd(S) else rs.normal(size=(spec['n'], d))
+    Z = rs.normal(size=(spec['n'], d))
+    if _pd(S):
+        Z = Z @ np.linalg.cholesky(S).T
     U = stats.norm.cdf(Z).clip(1e-12, 1 - 1e-12)
     cols = {}
     names = column_names(spec['names'], d)
